@@ -1270,6 +1270,7 @@ package exec
 //@   property C01 C03 C13 C15
 //@   uses sem treelemmas
 //@   requires $HPRE$ && nt($B$) == NT_AxisName
+//@   lemma isASet(absv(context.result)) ==> qnodes(aset(absv(context.result)))      @entry-nodes
 //@   modifies context.result
 //@   ensures $HPOSTE$                                                         @error-iff-specified
 //@   ensures $HS1$                                                            @node-set
@@ -1463,4 +1464,115 @@ package exec
 //@     invariant forall n Cursor :: mem(result, n) ==> exists i Int :: 0 <= i && i <= #k && isASet($SR(i)$) && qmem(aset($SR(i)$), n)
 //@     invariant forall i Int, n Cursor :: 0 <= i && i <= #k && isASet($SR(i)$) && qmem(aset($SR(i)$), n) ==> mem(result, n)
 //@     invariant forall i Int :: 0 <= i && i <= #k ==> !$SBAD(i)$
+//@     decreases len(nodeSet) - #k
+
+
+// ---------- node tests (exec/contextfn_paths.go) ----------
+
+//@ extern strings.LastIndex(s, sep) (r)
+//@   pure
+//@   uses sem
+//@   ensures r == slastidx(s, sep)
+
+//@ extern strings.TrimSpace(s) (r)
+//@   pure
+//@   uses sem
+//@   ensures r == strim(s)
+
+//@ extern bsr.BSR.GetTChildI(b, i) (r)
+//@   uses sem
+//@   ensures r != nil && tokText(deref(r)) == tchildText(b, i)
+
+//@ extern token.Token.LiteralString(t) (r)
+//@   pure
+//@   uses sem
+//@   requires t != nil
+//@   ensures r == tokText(deref(t))
+
+//@ macro NSD = context.ContextSettings.NamespaceDecls
+//@ macro FQ = old(seqOf(nodeSet))
+//@ macro UNUSEDFLOOP(TEST) = (0 - 1 <= #k && #k < len(nodeSet) || (len(nodeSet) == 0 && #k == 0 - 1)) && context.result == old(context.result) && nodes(nodeSet) && wf(nodeSet) && seqOf(nodeSet) == $FQ$ && fresh(result) && nodes(result) && len(result) <= cap(result) && (forall n Cursor :: mem(result, n) ==> qmem($FQ$, n) && TEST(n)) && (forall i Int :: 0 <= i && i <= #k && TEST(qat($FQ$, i)) ==> mem(result, qat($FQ$, i))) && (forall n Cursor :: mem(result, n) ==> exists i Int :: 0 <= i && i <= #k && qat($FQ$, i) == n) && (sascq($FQ$) ==> sasc(result) && (forall j Int :: 0 <= j && j < len(result) && #k >= 0 ==> pos(result[j]) <= pos(qat($FQ$, #k)))) && (sdescq($FQ$) ==> sdesc(result) && (forall j Int :: 0 <= j && j < len(result) && #k >= 0 ==> pos(result[j]) >= pos(qat($FQ$, #k))))
+
+//@ macro TCOMMENT(n) = ckind(n) == 5
+//@ macro TTEXT(n) = ckind(n) == 4
+//@ macro TPI(n) = ckind(n) == 6
+
+//@ func execNodeTestNodeTypeNoArgTest(context, expr) (err)
+//@   property C01 C03 C11 C13 C15
+//@   uses sem
+//@   requires $HPRE$ && (nt($B$) == NT_NodeTestNodeTypeNoArgTest) 
+//@   modifies context.result
+//@   ensures $HPOSTE$                                                         @error-iff-specified
+//@   ensures err == nil && isASet(old(absv(context.result))) ==> isASet(absv(context.result)) && isASet($SEMV$)                                 @node-set
+//@   ensures err == nil && sascq(aset(old(absv(context.result)))) ==> sascq($RSEQ$) && sascq(aset($SEMV$))     @ascending-kept
+//@   ensures err == nil && sdescq(aset(old(absv(context.result)))) ==> sdescq($RSEQ$) && sdescq(aset($SEMV$))  @descending-kept
+//@   ensures err == nil && isASet(old(absv(context.result))) ==> sameset($RSEQ$, aset($SEMV$))                                                @exactly-the-nodes-passing-the-test
+//@   ensures $HPOSTV$                                                         @value-is-Sem
+//@   loop 0
+//@     invariant (0 - 1 <= #k && #k < len(nodeSet) || (len(nodeSet) == 0 && #k == 0 - 1)) && context.result == old(context.result) && nodes(nodeSet) && wf(nodeSet) && seqOf(nodeSet) == $FQ$ && fresh(result) && nodes(result) && len(result) <= cap(result)
+//@     invariant forall n Cursor :: mem(result, n) ==> qmem($FQ$, n) && $TCOMMENT(n)$
+//@     invariant forall i Int :: 0 <= i && i <= #k && $TCOMMENT(qat($FQ$, i))$ ==> mem(result, qat($FQ$, i))
+//@     invariant forall n Cursor :: mem(result, n) ==> exists i Int :: 0 <= i && i <= #k && qat($FQ$, i) == n
+//@     invariant sascq($FQ$) ==> sasc(result) && (forall j Int :: 0 <= j && j < len(result) && #k >= 0 ==> pos(result[j]) <= pos(qat($FQ$, #k)))
+//@     invariant sdescq($FQ$) ==> sdesc(result) && (forall j Int :: 0 <= j && j < len(result) && #k >= 0 ==> pos(result[j]) >= pos(qat($FQ$, #k)))
+//@     decreases len(nodeSet) - #k
+//@   loop 1
+//@     invariant (0 - 1 <= #k && #k < len(nodeSet) || (len(nodeSet) == 0 && #k == 0 - 1)) && context.result == old(context.result) && nodes(nodeSet) && wf(nodeSet) && seqOf(nodeSet) == $FQ$ && fresh(result) && nodes(result) && len(result) <= cap(result)
+//@     invariant forall n Cursor :: mem(result, n) ==> qmem($FQ$, n) && $TTEXT(n)$
+//@     invariant forall i Int :: 0 <= i && i <= #k && $TTEXT(qat($FQ$, i))$ ==> mem(result, qat($FQ$, i))
+//@     invariant forall n Cursor :: mem(result, n) ==> exists i Int :: 0 <= i && i <= #k && qat($FQ$, i) == n
+//@     invariant sascq($FQ$) ==> sasc(result) && (forall j Int :: 0 <= j && j < len(result) && #k >= 0 ==> pos(result[j]) <= pos(qat($FQ$, #k)))
+//@     invariant sdescq($FQ$) ==> sdesc(result) && (forall j Int :: 0 <= j && j < len(result) && #k >= 0 ==> pos(result[j]) >= pos(qat($FQ$, #k)))
+//@     decreases len(nodeSet) - #k
+//@   loop 2
+//@     invariant (0 - 1 <= #k && #k < len(nodeSet) || (len(nodeSet) == 0 && #k == 0 - 1)) && context.result == old(context.result) && nodes(nodeSet) && wf(nodeSet) && seqOf(nodeSet) == $FQ$ && fresh(result) && nodes(result) && len(result) <= cap(result)
+//@     invariant forall n Cursor :: mem(result, n) ==> qmem($FQ$, n) && $TPI(n)$
+//@     invariant forall i Int :: 0 <= i && i <= #k && $TPI(qat($FQ$, i))$ ==> mem(result, qat($FQ$, i))
+//@     invariant forall n Cursor :: mem(result, n) ==> exists i Int :: 0 <= i && i <= #k && qat($FQ$, i) == n
+//@     invariant sascq($FQ$) ==> sasc(result) && (forall j Int :: 0 <= j && j < len(result) && #k >= 0 ==> pos(result[j]) <= pos(qat($FQ$, #k)))
+//@     invariant sdescq($FQ$) ==> sdesc(result) && (forall j Int :: 0 <= j && j < len(result) && #k >= 0 ==> pos(result[j]) >= pos(qat($FQ$, #k)))
+//@     decreases len(nodeSet) - #k
+
+//@ macro TPIT(n) = ckind(n) == 6 && piTarget(nodeOf(n)) == literalString
+
+//@ func execNodeTestProcInstTargetTest(context, expr) (err)
+//@   property C01 C03 C11 C13 C15
+//@   uses sem
+//@   requires $HPRE$ && (nt($B$) == NT_NodeTestProcInstTargetTest)
+//@   modifies context.result
+//@   ensures $HPOSTE$                                                         @error-iff-specified
+//@   ensures err == nil && isASet(old(absv(context.result))) ==> isASet(absv(context.result)) && isASet($SEMV$)                                 @node-set
+//@   ensures err == nil && sascq(aset(old(absv(context.result)))) ==> sascq($RSEQ$) && sascq(aset($SEMV$))     @ascending-kept
+//@   ensures err == nil && sdescq(aset(old(absv(context.result)))) ==> sdescq($RSEQ$) && sdescq(aset($SEMV$))  @descending-kept
+//@   ensures err == nil && isASet(old(absv(context.result))) ==> sameset($RSEQ$, aset($SEMV$))                                                @exactly-the-nodes-passing-the-test
+//@   ensures $HPOSTV$                                                         @value-is-Sem
+//@   loop 0
+//@     invariant (0 - 1 <= #k && #k < len(nodeSet) || (len(nodeSet) == 0 && #k == 0 - 1)) && context.result == old(context.result) && nodes(nodeSet) && wf(nodeSet) && seqOf(nodeSet) == $FQ$ && fresh(result) && nodes(result) && len(result) <= cap(result)
+//@     invariant forall n Cursor :: mem(result, n) ==> qmem($FQ$, n) && $TPIT(n)$
+//@     invariant forall i Int :: 0 <= i && i <= #k && $TPIT(qat($FQ$, i))$ ==> mem(result, qat($FQ$, i))
+//@     invariant forall n Cursor :: mem(result, n) ==> exists i Int :: 0 <= i && i <= #k && qat($FQ$, i) == n
+//@     invariant sascq($FQ$) ==> sasc(result) && (forall j Int :: 0 <= j && j < len(result) && #k >= 0 ==> pos(result[j]) <= pos(qat($FQ$, #k)))
+//@     invariant sdescq($FQ$) ==> sdesc(result) && (forall j Int :: 0 <= j && j < len(result) && #k >= 0 ==> pos(result[j]) >= pos(qat($FQ$, #k)))
+//@     decreases len(nodeSet) - #k
+
+//@ macro TANY(n) = namedNode(n) || ckind(n) == 3
+
+//@ func execNameTestAnyElement(context, expr) (err)
+//@   property C01 C03 C11 C13 C15
+//@   uses sem
+//@   requires $HPRE$ && (nt($B$) == NT_NameTestAnyElement)
+//@   modifies context.result
+//@   ensures $HPOSTE$                                                         @error-iff-specified
+//@   ensures err == nil && isASet(old(absv(context.result))) ==> isASet(absv(context.result)) && isASet($SEMV$)                                 @node-set
+//@   ensures err == nil && sascq(aset(old(absv(context.result)))) ==> sascq($RSEQ$) && sascq(aset($SEMV$))     @ascending-kept
+//@   ensures err == nil && sdescq(aset(old(absv(context.result)))) ==> sdescq($RSEQ$) && sdescq(aset($SEMV$))  @descending-kept
+//@   ensures err == nil && isASet(old(absv(context.result))) ==> sameset($RSEQ$, aset($SEMV$))                                                @exactly-the-nodes-passing-the-test
+//@   ensures $HPOSTV$                                                         @value-is-Sem
+//@   loop 0
+//@     invariant (0 - 1 <= #k && #k < len(nodeSet) || (len(nodeSet) == 0 && #k == 0 - 1)) && context.result == old(context.result) && nodes(nodeSet) && wf(nodeSet) && seqOf(nodeSet) == $FQ$ && fresh(result) && nodes(result) && len(result) <= cap(result)
+//@     invariant forall n Cursor :: mem(result, n) ==> qmem($FQ$, n) && $TANY(n)$
+//@     invariant forall i Int :: 0 <= i && i <= #k && $TANY(qat($FQ$, i))$ ==> mem(result, qat($FQ$, i))
+//@     invariant forall n Cursor :: mem(result, n) ==> exists i Int :: 0 <= i && i <= #k && qat($FQ$, i) == n
+//@     invariant sascq($FQ$) ==> sasc(result) && (forall j Int :: 0 <= j && j < len(result) && #k >= 0 ==> pos(result[j]) <= pos(qat($FQ$, #k)))
+//@     invariant sdescq($FQ$) ==> sdesc(result) && (forall j Int :: 0 <= j && j < len(result) && #k >= 0 ==> pos(result[j]) >= pos(qat($FQ$, #k)))
 //@     decreases len(nodeSet) - #k
